@@ -479,5 +479,20 @@ class Program:
     def list_adts(self):
         return self._classify_adts()['list']
 
+    def private_tree_fields(self, adt):
+        """fields of a tree type that its sibling tree types do not have (an entry counter added to one copy, a cached
+        extreme): they are no part of the structure the copies share, so a comparison of the copies leaves them out"""
+        if not hasattr(self, '_ptf'):
+            names = {}
+            for t in self.tree_adts:
+                a = self.adts.get(t)
+                if a and a.get('variants'):
+                    names[t] = [f['name'] for f in a['variants'][0]['fields']]
+            common = None
+            for t, ns in names.items():
+                common = set(ns) if common is None else common & set(ns)
+            self._ptf = {t: {n for n in ns if n not in (common or set())} for t, ns in names.items()} if len(names) >= 2 else {}
+        return self._ptf.get(adt, set())
+
     def tree_modules(self):
         return {a.rsplit('::', 1)[0].replace('::', '/') for a in self.tree_adts}
